@@ -47,6 +47,14 @@ func (r *vIRunner) Run() error {
 type vILazyRunner struct {
 	name string
 	log  *vILog
+	fail bool
+}
+
+func (r *vILazyRunner) Init() error {
+	if r.fail {
+		return errV
+	}
+	return nil
 }
 
 func (r *vILazyRunner) Naming() string { return r.name }
@@ -83,10 +91,13 @@ func VerifAppIntegration() {
 		comps = append(comps, &vIComp{name: names[i], log: log, fail: i == failing})
 	}
 	nr := nd.Param("R", 1)
+	lazyFails := false
 	for i := 0; i < nr; i++ {
 		if i == nr-1 && nd.Bool() {
 			nd.Cover("lazy runner")
-			comps = append(comps, &vILazyRunner{name: []string{"zr", "ar"}[i], log: log})
+			lr := &vILazyRunner{name: []string{"zr", "ar"}[i], log: log, fail: nd.Bool()}
+			lazyFails = lazyFails || lr.fail
+			comps = append(comps, lr)
 			continue
 		}
 		comps = append(comps, &vIRunner{name: []string{"zr", "ar"}[i], log: log})
@@ -116,6 +127,12 @@ func VerifAppIntegration() {
 				firstRun = i
 			}
 		}
+	}
+	if lazyFails {
+		nd.Cover("initialization of a lazy runner fails")
+		nd.Assert(err != nil, "C09: a failing Init of a component created during start-up makes run return an error, also when only an optional point asks for it")
+		nd.Assert(runs == 0, "C09: no application runner is invoked after a failed start-up")
+		return
 	}
 	if failing < n {
 		nd.Cover("component init fails")
